@@ -365,7 +365,7 @@ int verif_load_object_depth (void) { return num_objects_this_thread; }
  */
 object_t* load_object (const char *mudlib_filename, const char *pre_text) {
 
-  int f;
+  int f, legal;
   program_t *prog;
   object_t *ob, *save_command_giver = command_giver;
   svalue_t *mret;
@@ -392,7 +392,10 @@ object_t* load_object (const char *mudlib_filename, const char *pre_text) {
   (void) strncat (real_name, ".c", sizeof(real_name) - strlen(real_name) - 1);
 
   opt_trace(TT_COMPILE|1, "load_object: \"%s\"", real_name);
-  if (stat (real_name, &c_st) == -1)
+  /* a name that is not a legal path (a ".." component, '#', ...) is never looked up in the file
+   * system: it is treated like a file that does not exist (a virtual object may still answer to it) */
+  legal = legal_path (real_name);
+  if (!legal || stat (real_name, &c_st) == -1)
     {
       svalue_t *v;
 
@@ -413,7 +416,7 @@ object_t* load_object (const char *mudlib_filename, const char *pre_text) {
           num_objects_this_thread--;
           return ob;
         }
-      else if (!pre_text)
+      else if (!pre_text || !legal)
         {
           num_objects_this_thread--;
           return 0;
@@ -421,15 +424,6 @@ object_t* load_object (const char *mudlib_filename, const char *pre_text) {
     }
   else
     {
-      /*
-      * Check if it's a legal name.
-      */
-      if (!legal_path (real_name))
-        {
-          debug_message ("Illegal pathname: /%s\n", real_name);
-          error ("*Illegal path name '/%s'.", real_name);
-          return 0;
-        }
       opt_trace (TT_COMPILE|2, "legal_path passed: \"%s\"", real_name);
     }
 
